@@ -839,11 +839,14 @@ pub mod wf {
         ecs_archetype!(ArchZF, CompZ, CompB);
         ecs_archetype!(ArchYF, CompY, CompA, CompZ);
         ecs_archetype!(ArchU, CompU);
+        #[archetype_id(77)]
+        ecs_archetype!(ArchOdd, CompS5, CompA16, CompS7, CompP12, CompA32, CompS6);
     }
 
     arch_spec!(WF, ArchZF, [(CompZ, comp_z), (CompB, comp_b)]);
     arch_spec!(WF, ArchYF, [(CompY, comp_y), (CompA, comp_a), (CompZ, comp_z)]);
     arch_spec!(WF, ArchU, [(CompU, comp_u)]);
+    arch_spec!(WF, ArchOdd, [(CompS5, comp_s_5), (CompA16, comp_a_16), (CompS7, comp_s_7), (CompP12, comp_p_12), (CompA32, comp_a_32), (CompS6, comp_s_6)]);
 
     site!(S0, WF, w,
         params = [e: &EntityAny, d: &EntityDirectAny, z: &mut CompZ],
@@ -862,13 +865,19 @@ pub mod wf {
         ent = abits(*e), dir = Some((*d).into_any()), cols = [ColRef::R(y), ColRef::W(a)],
         other = Some(&mut w.arch_zf as &mut dyn ArchDyn));
 
+    site!(S4, WF, w,
+        params = [e: &EntityAny, d: &EntityDirectAny, s: &mut CompS7, a: &CompA32, p: &mut CompP12],
+        ent = abits(*e), dir = Some(*d), cols = [ColRef::W(s), ColRef::R(a), ColRef::W(p)],
+        other = Some(&mut w.arch_yf as &mut dyn ArchDyn));
+
     world_spec!(WF, "WF",
-        archs = [(0, ArchZF, arch_zf), (1, ArchYF, arch_yf), (2, ArchU, arch_u)],
+        archs = [(0, ArchZF, arch_zf), (1, ArchYF, arch_yf), (2, ArchU, arch_u), (3, ArchOdd, arch_odd)],
         sites = [
             (0, S0, SiteInfo { name: "S0 |&EntityAny, &EntityDirectAny, &mut CompZ|", matches: &[0, 1], cols: &[&[0], &[2]], muts: &[true], has_dir: true, other: Some(2) }),
             (1, S1, SiteInfo { name: "S1 |&Entity<_>, &mut CompB|", matches: &[0], cols: &[&[1]], muts: &[true], has_dir: false, other: None }),
-            (2, S2, SiteInfo { name: "S2 |&EntityAny, &EntityDirectAny|", matches: &[0, 1, 2], cols: &[&[], &[], &[]], muts: &[], has_dir: true, other: None }),
+            (2, S2, SiteInfo { name: "S2 |&EntityAny, &EntityDirectAny|", matches: &[0, 1, 2, 3], cols: &[&[], &[], &[], &[]], muts: &[], has_dir: true, other: None }),
             (3, S3, SiteInfo { name: "S3 |&CompY, &EntityDirect<_>, &EntityAny, &mut CompA|", matches: &[1], cols: &[&[0, 1]], muts: &[false, true], has_dir: true, other: Some(0) }),
+            (4, S4, SiteInfo { name: "S4 |&EntityAny, &EntityDirectAny, &mut CompS7, &CompA32, &mut CompP12|", matches: &[3], cols: &[&[2, 4, 3]], muts: &[true, false, true], has_dir: true, other: Some(1) }),
         ]
     );
 }
